@@ -864,7 +864,7 @@ class C12(ServerProp):
                 usz = rng.choice([0, 5, ub - 1, ub, 2 * ub + 3, 5 * ub, 12 * ub + 1, 24 * ub - 1])
                 cl.append("u:up%d:%d:%d:gen:%d:%d" % (ups, ub, rng.choice([1, 2, 4]), usz, rng.randint(0, 255)))
             elif r < 0.93 or i == 0:
-                cl.append("i:" + rng.choice(["ack", "data", "err", "oack"]))
+                cl.append("i:" + rng.choice(["ack", "data", "err", "oack", "data512", "data600", "data1024", "data511"]))
             else:
                 cl.append("x:%d:%s" % (rng.randint(0, i - 1), rng.choice(["empty", "one", "opcode", "shortack", "noise", "unterminated", "ack", "data", "err"])))
         fs = ",".join("srv/%s=%s" % (n, c) for n, c in files.items())
@@ -931,6 +931,11 @@ class C12(ServerProp):
         for flags in ["-", "s", "s1"]:
             for bsz in (65464, 32768, 16384):
                 lines.append("multi %s %s srv/huge=gen:140000:5 %s d:huge:%d:1 u:up1:%d:2:gen:%d:9" % (self.root(i), flags, rng.choice(["01", "0011", "10"]), bsz, bsz, 2 * bsz + 17))
+                i += 1
+        # directed: stray DATA packets to the listening port that fill (or overflow) its receive buffer are answered like any other
+        for flags in ["-", "s"]:
+            for kind in ["data512", "data1024", "data513", "data65000"]:
+                lines.append("multi %s %s srv/c=gen:16:3,srv/big=gen:3000:5 %s d:big:1024:1 i:%s d:c:8:1+i:%s" % (self.root(i), flags, rng.choice(["0012", "0120", "1002"]), kind, kind))
                 i += 1
         # directed: in the middle of its download an endpoint sends requests the server cannot accept (option values out of range): they start
         # nothing, and the running transfer - the endpoint's own and everybody else's - goes on
